@@ -343,8 +343,8 @@ def offenders(res):
         out.append(("C04", "parked-with-room", "dispatcher parked in cond_wait with room for another target (step %d)" % pw))
     if status == "deadlock":
         out.append(("C03", "deadlock", "no runnable thread while dsh() has not returned (lost wake-up), N=%d f=%d" % (n, f)))
-    elif status == "budget":
-        out.append(("C03", "no-termination", "step budget exceeded with a bounded number of spurious wake-ups"))
+    elif status in ("budget", "spin"):
+        out.append(("C03", "no-termination", "step budget exceeded / a thread spins with a bounded number of spurious wake-ups"))
     elif status == "exit":
         out.append(("C03", "exit:%s" % m["code"], "pdsh called exit(%s) during the run" % m["code"]))
     elif status != "ok":
@@ -357,7 +357,9 @@ def offenders(res):
                 break
         if int(m["early"]):
             out.append(("C03", "early-return", "dsh() returned before every started command was torn down"))
-        if res["case"].get("inline") or "io" in res["case"].get("yield", "") or "all" in res["case"].get("yield", ""):
+        if (res["case"].get("opts") or {}).get("pers") == "pcp":
+            pass                        # a copy relays no command output
+        elif res["case"].get("inline") or "io" in res["case"].get("yield", "") or "all" in res["case"].get("yield", ""):
             miss = delivered_before_return(res)
             if miss:
                 out.append(("C03", "output-not-delivered", "output of %s not written before dsh() returned" % miss[0]))
